@@ -120,6 +120,14 @@ def run_tv(ctx, n_cases, max_len=800):
                         red = 0.0            # a reduction below zero is an invalid setting (C19), not a case of C16
                     b = Bycycle(center_extrema=o['center_extrema'], burst_method='cycles', thresholds=copy.deepcopy(th),
                                 find_extrema_kwargs=copy.deepcopy(o['find_extrema_kwargs']), return_samples=o['return_samples'])
+                    if (i // 4) % 2 == 0:
+                        # the object has a history: it was fitted to another recording before the user's table was loaded - the table HELD is recomputed
+                        with warnings.catch_warnings():
+                            warnings.simplefilter('ignore')
+                            try:
+                                b.fit(c['sig'][::-1].copy(), c['fs'], c['f_range'])
+                            except Exception:
+                                pass
                     b.load(df, c['sig'], c['fs'], c['f_range'])
                     b.recompute_edges(red if red else None)
                     if i % 8 == 3:
